@@ -24,20 +24,20 @@ type FindingProbe struct {
 
 // Property describes one claimed property's check.
 type Property struct {
-	ID          string
-	Level       string // exploration | fault_enumeration
-	Engine      string
-	Scenarios   []Scenario
-	Run         func(c *Ctx) // executes one simulated run of c.Scenario from c.Tape
-	Rule        string
-	StepUnit    string // what Ctx.Steps counts (simulated time unit)
-	Assumptions []string
-	RealCode    []string
-	Stubs       []string
-	Caps        map[string]int
-	QuickRuns   int
+	ID           string
+	Level        string // exploration | fault_enumeration
+	Engine       string
+	Scenarios    []Scenario
+	Run          func(c *Ctx) // executes one simulated run of c.Scenario from c.Tape
+	Rule         string
+	StepUnit     string // what Ctx.Steps counts (simulated time unit)
+	Assumptions  []string
+	RealCode     []string
+	Stubs        []string
+	Caps         map[string]int
+	QuickRuns    int
 	ThoroughRuns int
-	Probes      []FindingProbe
+	Probes       []FindingProbe
 	ShrinkBudget int
 	// Isolated: violations kill the process (race detector); run/replay in
 	// child processes and shrink from outside.
@@ -59,17 +59,17 @@ func Register(p *Property) {
 
 // Outcome is the result of one executed run.
 type Outcome struct {
-	Viol     *Violation
-	Harness  string // non-empty: the harness itself failed (exit 2)
-	Choices  []int
-	Events   []string
-	LogHash  uint64
-	StateH   uint64
-	Stats    map[string]int
-	Steps    int
-	Nontriv  bool
-	Sample   interface{}
-	Used     int
+	Viol    *Violation
+	Harness string // non-empty: the harness itself failed (exit 2)
+	Choices []int
+	Events  []string
+	LogHash uint64
+	StateH  uint64
+	Stats   map[string]int
+	Steps   int
+	Nontriv bool
+	Sample  interface{}
+	Used    int
 }
 
 // Execute runs one simulated run and converts every way it can end into an
